@@ -9,6 +9,7 @@
  *      observers Member / BinarySearch / Get compared with a plain sorted array.
  */
 #include "vh.h"
+#include <sys/mman.h>
 
 #include "packed_inst.h"
 
@@ -202,6 +203,227 @@ static void isolation(const pinst *p) {
         snprintf(ck, sizeof ck, "isolation/w%d/slot%d/%s/startbit%u/%s", w, S, p->compact ? "compact" : "default", (unsigned)(bit % (uint64_t)S), firstslot == lastslot ? "one-slot" : "two-slot");
         vh_class(ck, "%s element %u", p->tag, i);
     }
+}
+
+/* ---------------------------------------------------------------- far elements
+ * The element index is a PACKED_LEN_TYPE (uint32_t by default, uint8_t/uint16_t under PACK_MAX_ELEMENTS) while the slot
+ * index and the bit offset grow faster than the index when a value is wider than a slot.  Storage is a lazily
+ * committed (MAP_NORESERVE) mapping large enough for element 2^32-1 of the widest instance; before each call no page
+ * of it is resident except the window around the addressed slots, so after the call (a) the window must equal the
+ * model and (b) mincore() must show that no other page of the whole storage was accessed. */
+#define FAR_MAP (((size_t)16 << 30) + (1 << 16))
+static uint8_t *far_map;
+static unsigned char *far_vec;
+static size_t far_index_alphabet(const pinst *p, uint64_t *out) {
+    uint64_t w = (uint64_t)p->width, S = (uint64_t)p->slotbits;
+    uint64_t cand[80];
+    size_t k = 0;
+    static const int KS[6] = {8, 16, 24, 31, 32, 15};
+    for (int i = 0; i < 6; i++) {
+        uint64_t b = 1ULL << KS[i];
+        for (int d = -1; d <= 1; d++) {
+            cand[k++] = b + (uint64_t)d;               /* the index itself crosses 2^k */
+            cand[k++] = b / w + (uint64_t)d;           /* the bit offset crosses 2^k */
+            cand[k++] = (b * S) / w + (uint64_t)d;     /* the slot index crosses 2^k */
+            cand[k++] = (b * 8) / w + (uint64_t)d;     /* the byte offset crosses 2^k */
+        }
+    }
+    cand[k++] = (uint64_t)p->maxel - 1;
+    cand[k++] = (uint64_t)p->maxel - 2;
+    cand[k++] = (uint64_t)p->maxel / 2 + 1;
+    size_t n = 0;
+    for (size_t i = 0; i < k; i++) {
+        uint64_t x = cand[i];
+        if (x >= (uint64_t)p->maxel || x < 40 || (x * w + w) / 8 + 64 >= FAR_MAP) {
+            continue;
+        }
+        int dup = 0;
+        for (size_t j = 0; j < n; j++) {
+            dup |= out[j] == x;
+        }
+        if (!dup) {
+            out[n++] = x;
+        }
+    }
+    return n;
+}
+static void far_scan(const char *api, size_t wlo, size_t whi, size_t extent) {
+    /* extent: bytes of storage an array of maxel elements of this instance can occupy (plus slack) */
+    extent = (extent + 4095) & ~(size_t)4095;
+    if (extent > FAR_MAP) {
+        extent = FAR_MAP;
+    }
+    if (mincore(far_map, extent, far_vec) != 0) {
+        vh_flag("far_storage_mapped", 0);
+        return;
+    }
+    size_t plo = wlo / 4096, phi = (whi - 1) / 4096, npages = extent / 4096;
+    for (size_t pg = 0; pg < npages; pg++) {
+        if (pg + 8 <= npages && ((uintptr_t)(far_vec + pg) & 7) == 0) {
+            uint64_t eight;
+            memcpy(&eight, far_vec + pg, 8);
+            if ((eight & 0x0101010101010101ULL) == 0) {
+                pg += 7;
+                continue;
+            }
+        }
+        if (!(far_vec[pg] & 1)) {
+            continue;
+        }
+        if (pg < plo || pg > phi) {
+            PFAIL(api, "touches_foreign_slot", "%s: element lies in storage bytes %zu..%zu but the page at storage byte %zu was accessed", cur_desc, wlo, whi - 1, pg * 4096);
+        }
+        madvise(far_map + pg * 4096, 4096, MADV_DONTNEED);
+    }
+    vh_count("page_scans", 1);
+}
+static void far_elements(const pinst *p) {
+    int w = p->width, S = p->slotbits, SB = S / 8;
+    uint64_t idx[96];
+    size_t ni = far_index_alphabet(p, idx);
+    uint64_t mask = (1ULL << w) - 1;
+    for (size_t ii = 0; ii < ni; ii++) {
+        if (!vh_case()) {
+            continue;
+        }
+        uint64_t i = idx[ii], bit = i * (uint64_t)w;
+        size_t firstslot = (size_t)(bit / (uint64_t)S), lastslot = (size_t)((bit + (uint64_t)w - 1) / (uint64_t)S);
+        size_t wlo = (firstslot - 1) * (size_t)SB, whi = (lastslot + 2) * (size_t)SB, wl = whi - wlo;
+        uint64_t vv[3] = {mask, 0x5555555555555555ULL & mask, 1};
+        for (int bg = 0; bg < 2; bg++) {
+            for (int vi = 0; vi < 3; vi++) {
+                for (int opi = 0; opi < 4; opi++) { /* Set, Get of independently written bits, SetIncr, SetHalf */
+                    static const char *OPN[4] = {"packed.Set", "packed.Get", "packed.SetIncr", "packed.SetHalf"};
+                    uint64_t v = vv[vi], expect = v;
+                    uint8_t model[64];
+                    memset(far_map + wlo, bg ? 0xff : 0x00, wl);
+                    memset(model, bg ? 0xff : 0x00, wl);
+                    uint64_t rel = bit - (uint64_t)wlo * 8;
+                    snprintf(cur_desc, sizeof cur_desc, "%s: element %" PRIu64 " value 0x%" PRIx64 " background %02x", p->tag, i, v, bg ? 0xff : 0);
+                    if (opi != 0) {
+                        model_set(model, rel, w, v);
+                        memcpy(far_map + wlo, model, wl);
+                    }
+                    uint64_t got = 0;
+                    if (SB_ENTER()) {
+                        if (opi == 0) {
+                            p->set(far_map, (uint32_t)i, v);
+                            model_set(model, rel, w, v);
+                        } else if (opi == 1) {
+                            got = p->get(far_map, (uint32_t)i);
+                        } else if (opi == 2) {
+                            int64_t by = (int64_t)(mask - v);
+                            p->incr(far_map, (uint32_t)i, by);
+                            model_set(model, rel, w, mask);
+                        } else {
+                            p->half(far_map, (uint32_t)i);
+                            model_set(model, rel, w, v / 2);
+                        }
+                        SB_LEAVE();
+                    } else {
+                        PFAIL(OPN[opi], vh_fault_name(), "%s %s", cur_desc, vh_fault_msg);
+                    }
+                    vh_count("calls", 1);
+                    vh_count("cases", 1);
+                    if (opi == 1 && got != expect) {
+                        PFAIL(OPN[opi], "wrong_value", "%s: Get = 0x%" PRIx64, cur_desc, got);
+                    }
+                    if (memcmp(far_map + wlo, model, wl)) {
+                        PFAIL(OPN[opi], "neighbour_corrupted", "%s: the slots at the element's position differ from the model", cur_desc);
+                    }
+                }
+            }
+        }
+        /* one page-access scan covers the 24 calls on this element together */
+        snprintf(cur_desc, sizeof cur_desc, "%s: element %" PRIu64 " (Set/Get/SetIncr/SetHalf x 3 values x 2 backgrounds)", p->tag, i);
+        far_scan("packed.Set/Get/SetIncr/SetHalf", wlo, whi, (size_t)(((uint64_t)p->maxel * (uint64_t)w) / 8) + (1 << 16));
+        char ck[96];
+        snprintf(ck, sizeof ck, "far/w%d/slot%d/%s/index>=2^%d", w, S, p->maxel <= 255 ? "len8" : p->maxel <= 65535 ? "len16" : "len32", 63 - __builtin_clzll(i));
+        vh_class(ck, "%s element %" PRIu64, p->tag, i);
+    }
+}
+
+/* long sorted arrays: the sorted-array operations near the top of the index range of the narrow length types (and
+ * 70000 elements for the default type), against a plain array */
+static void sorted_long(const pinst *p) {
+    int w = p->width;
+    uint64_t mask = (1ULL << w) - 1;
+    uint32_t L = p->maxel < 70000 ? p->maxel - 2 : 70000;
+    uint64_t *ref = malloc(sizeof(uint64_t) * ((size_t)L + 4));
+    uint8_t *st = far_map; /* zero pages; big enough */
+    size_t bytes = ((size_t)(L + 4) * (size_t)w + 7) / 8 + 64;
+    memset(st, 0, bytes);
+    /* ascending values with gaps (so that absent values exist), saturating at the mask */
+    for (uint32_t i = 0; i < L; i++) {
+        uint64_t v = mask >= 2ULL * L + 3 ? 2ULL * i + 1 : (uint64_t)i * mask / (L + 1);
+        ref[i] = v;
+        p->set(st, i, v);
+    }
+    uint32_t len = L;
+    snprintf(cur_desc, sizeof cur_desc, "%s: sorted array of %u elements", p->tag, L);
+    /* members / non-members near both ends and the middle */
+    uint32_t pos[6] = {0, 1, L / 2, L - 2, L - 1, (uint32_t)((uint64_t)L * 2 / 3)};
+    for (int k = 0; k < 6; k++) {
+        uint64_t v = ref[pos[k]];
+        int64_t m = p->member(st, len, v);
+        if (m < 0 || ref[m] != v) {
+            PFAIL("packed.Member", "model_divergence", "%s: Member(0x%" PRIx64 ") = %" PRId64 ", value is at %u", cur_desc, v, m, pos[k]);
+        }
+        uint32_t b = p->bsearch(st, len, v);
+        if (b > len || (b < len && ref[b] < v) || (b > 0 && ref[b - 1] > v)) {
+            PFAIL("packed.BinarySearch", "model_divergence", "%s: BinarySearch(0x%" PRIx64 ") = %u", cur_desc, v, b);
+        }
+        vh_count("calls", 2);
+    }
+    /* one insertion at the top, one in the upper third, then delete them again; compare all elements each time */
+    uint64_t ins[2] = {ref[L - 1], ref[(uint64_t)L * 2 / 3]};
+    for (int k = 0; k < 2 && len + 1 <= p->maxel - 1; k++) {
+        p->insert_sorted(st, len, ins[k]);
+        /* model */
+        uint32_t at = 0;
+        while (at < len && ref[at] < ins[k]) {
+            at++;
+        }
+        memmove(ref + at + 1, ref + at, sizeof(uint64_t) * (len - at));
+        ref[at] = ins[k];
+        len++;
+        for (uint32_t i = 0; i < len; i++) {
+            uint64_t g = p->get(st, i);
+            if (g != ref[i]) {
+                PFAIL("packed.InsertSorted", "model_divergence", "%s: after InsertSorted(0x%" PRIx64 ") element %u reads 0x%" PRIx64 ", model 0x%" PRIx64, cur_desc, ins[k], i, g, ref[i]);
+                break;
+            }
+        }
+        vh_count("calls", 1 + len);
+    }
+    for (int k = 0; k < 2 && len > 2; k++) {
+        int r = p->del_member(st, len, ins[k]);
+        uint32_t at = 0;
+        while (at < len && ref[at] != ins[k]) {
+            at++;
+        }
+        if (at < len) {
+            memmove(ref + at, ref + at + 1, sizeof(uint64_t) * (len - at - 1));
+            len--;
+        }
+        if (!r) {
+            PFAIL("packed.DeleteMember", "model_divergence", "%s: DeleteMember(0x%" PRIx64 ") reported absent", cur_desc, ins[k]);
+        }
+        for (uint32_t i = 0; i < len; i++) {
+            uint64_t g = p->get(st, i);
+            if (g != ref[i]) {
+                PFAIL("packed.DeleteMember", "model_divergence", "%s: after DeleteMember(0x%" PRIx64 ") element %u reads 0x%" PRIx64 ", model 0x%" PRIx64, cur_desc, ins[k], i, g, ref[i]);
+                break;
+            }
+        }
+        vh_count("calls", 1 + len);
+    }
+    vh_count("cases", 1);
+    madvise(st, (bytes + 8191) & ~(size_t)4095, MADV_DONTNEED);
+    free(ref);
+    char ck[64];
+    snprintf(ck, sizeof ck, "sorted-long/w%d/slot%d/len%u", w, p->slotbits, L);
+    vh_class(ck, "%s", p->tag);
 }
 
 /* ---------------------------------------------------------------- sorted semantics: BFS to closure */
@@ -419,6 +641,40 @@ int main(int argc, char **argv) {
             }
             cur_inst = p;
             sorted_bfs(p);
+        }
+    }
+    /* far elements and long sorted arrays */
+    far_map = mmap(NULL, FAR_MAP, PROT_READ | PROT_WRITE, MAP_PRIVATE | MAP_ANONYMOUS | MAP_NORESERVE, -1, 0);
+    if (far_map == MAP_FAILED) {
+        vh_flag("far_storage_mapped", 0);
+    } else {
+        vh_flag("far_storage_mapped", 1);
+        madvise(far_map, FAR_MAP, MADV_NOHUGEPAGE);
+        far_vec = malloc(FAR_MAP / 4096);
+        if (vh_section_begin("far")) {
+            for (int k = 0; k < NPINST; k++) {
+                cur_inst = &PINST[k];
+                far_elements(&PINST[k]);
+            }
+        }
+        if (vh_section_begin("sorted-long")) {
+            for (int k = 0; k < NPINST; k++) {
+                const pinst *p = &PINST[k];
+                int pick = p->maxel < 70000 || p->intree || (p->width == 12 && p->slotbits == 8) || (p->width == 31 && p->slotbits == 32) || (p->width == 17 && p->slotbits == 16 && !p->compact);
+                if (vh_thorough) {
+                    pick = pick || p->width % 4 == 1;
+                }
+                if (!pick || !vh_case()) {
+                    continue;
+                }
+                cur_inst = p;
+                if (SB_ENTER()) {
+                    sorted_long(p);
+                    SB_LEAVE();
+                } else {
+                    PFAIL("packed.sorted", vh_fault_name(), "%s %s", cur_desc, vh_fault_msg);
+                }
+            }
         }
     }
     vh_write_out();
